@@ -11,6 +11,12 @@ import (
 //
 // - Sorted input not required
 func Update(txn *lmdb.Txn, dbi lmdb.DBI, it Iterator) error {
+	flags, err := txn.Flags(dbi)
+	if err != nil {
+		return fmt.Errorf("get flags: %w", err)
+	}
+	integerKey := flags&LMDBIntegerKeyFlag > 0
+
 	for {
 		// Get key
 		key, err := it.Next()
@@ -19,6 +25,13 @@ func Update(txn *lmdb.Txn, dbi lmdb.DBI, it Iterator) error {
 				return nil // done
 			}
 			return fmt.Errorf("next: %w", err)
+		}
+
+		// The keys can come from a remote snapshot. LMDB does not validate
+		// the key size on lookups, and reads out of bounds (crashing the
+		// process) when comparing a wrongly sized key in an MDB_INTEGERKEY DBI.
+		if err := checkKeySize(key, integerKey); err != nil {
+			return err
 		}
 
 		dbv, err := txn.Get(dbi, key) // Error not a problem, does not need to be there
